@@ -1105,3 +1105,241 @@ theorem visit_eq_spec (c : Ctx) : ∀ s, wf s = true → ∀ v, visit c s v = sp
     rw [visit_comb, specVisit_comb, visitAll_eq_spec c bs hb v, visitMatches_eq_spec c v bs hb]
 
 end KinModel.C13.Body
+
+namespace KinModel.C13.Body
+
+/-! ### `touched`: a visit that set no default anywhere forwards the value as it is -/
+
+theorem touched_leaf (c : Ctx) (a : Attr) (ty : Ty) (v : J) : touched c (.leaf a ty) v = false := by rw [touched]
+
+theorem touched_obj_obj (c : Ctx) (a : Attr) (req props addl kvs) :
+    touched c (.obj a req props addl) (.obj kvs) =
+      ((c.setDefaults && (defaulted c props kvs).length != kvs.length) ||
+        touchedProps c (stopKey c addl props (defaulted c props kvs)) props (defaulted c props kvs)) := by
+  rw [touched]
+
+theorem touched_arr_arr (c : Ctx) (a : Attr) (items xs) :
+    touched c (.arr a items) (.arr xs) =
+      anyUntil (fun x => touched c items x) (fun x => (visit c items x).isNone && !c.multi) xs := by
+  rw [touched]
+
+theorem touched_comb (c : Ctx) (a : Attr) (k : Kind) (bs : List S) (v : J) :
+    touched c (.comb a k bs) v =
+      (if v.isNull then false
+       else match k with
+        | .oneOf => touchedEach c bs v
+        | .anyOf => touchedUntilMatch c bs v
+        | .allOf => touchedChain c bs v) := by
+  rw [touched.eq_def]
+  cases v <;> rfl
+
+/-- with default-setting skipped nothing is ever touched -/
+theorem defaulted_length (c : Ctx) (props : List (String × S)) (kvs : List (String × J))
+    (hn : keysNodup (props.map (·.1)) = true) (h : (defaulted c props kvs).length = kvs.length) :
+    defaulted c props kvs = kvs := by
+  rw [defaulted_eq_spec c props kvs hn] at h ⊢
+  unfold specDefaulted at h ⊢
+  split
+  · rename_i hc
+    simp only [hc, ↓reduceIte, List.length_append] at h
+    have : (absentDefaults c props kvs).length = 0 := by omega
+    rw [List.length_eq_zero_iff.mp this]; simp
+  · rfl
+
+theorem firstUnknown_none (props : List (String × S)) : ∀ (kvs : List (String × J)),
+    (∀ kv ∈ kvs, (lookup kv.1 props).isSome = true) → firstUnknown props kvs = none
+  | [], _ => rfl
+  | (k, x) :: r, h => by
+    simp only [firstUnknown, firstUnknown_none props r (fun kv hm => h kv (by simp [hm]))]
+    simp [h (k, x) (by simp)]
+
+theorem stopKey_none_of_checks (c : Ctx) (req props addl) (kvs1 : List (String × J))
+    (h : objChecks c req props addl kvs1 = true) : stopKey c addl props kvs1 = none := by
+  unfold stopKey
+  cases ha : addl with
+  | true => simp
+  | false =>
+    cases hm : c.multi with
+    | true => simp
+    | false =>
+      simp only [Bool.or_self, Bool.false_eq_true, ↓reduceIte]
+      apply firstUnknown_none
+      unfold objChecks addlOK at h
+      simp only [Bool.and_eq_true, List.all_eq_true, ha, Bool.false_or] at h
+      exact h.1.2
+
+/-- members that are all accepted and untouched stay as they are -/
+theorem visitProps_untouched (c : Ctx) : ∀ (ps : List (String × S)),
+    (∀ p ∈ ps, ∀ x x', visit c p.2 x = some x' → touched c p.2 x = false → x' = x) →
+    ∀ kvs kvs', visitProps c ps kvs = some kvs' → touchedProps c none ps kvs = false → kvs' = kvs
+  | [], _, kvs, kvs', h, _ => by simp [visitProps] at h; exact h.symm
+  | (k, s) :: ps, hp, kvs, kvs', h, ht => by
+    have hps : ∀ p ∈ ps, ∀ x x', visit c p.2 x = some x' → touched c p.2 x = false → x' = x :=
+      fun p hm => hp p (by simp [hm])
+    simp only [visitProps] at h
+    simp only [touchedProps] at ht
+    cases hl : lookup k kvs with
+    | none =>
+      simp only [hl] at h ht
+      exact visitProps_untouched c ps hps kvs kvs' h ht
+    | some x =>
+      simp only [hl] at h ht
+      cases hv : visit c s x with
+      | none => simp [hv] at h
+      | some x' =>
+        simp only [hv, Option.bind_some] at h
+        simp only [beyond, Bool.false_eq_true, ↓reduceIte, hv, Option.isNone_some, Bool.false_and, Bool.or_eq_false_iff] at ht
+        have hx : x' = x := hp (k, s) (by simp) x x' hv ht.1
+        subst hx
+        rw [setKey_noop k x' kvs hl] at h
+        exact visitProps_untouched c ps hps kvs kvs' h ht.2
+
+theorem mapOpt_untouched (f : J → Option J) (t ends : J → Bool) (hf : ∀ x y, f x = some y → t x = false → y = x)
+    (he : ∀ x, ends x = true → f x = none) :
+    ∀ (xs ys : List J), mapOpt f xs = some ys → anyUntil t ends xs = false → ys = xs
+  | [], ys, h, _ => by simp [mapOpt] at h; exact h
+  | x :: xs, ys, h, ht => by
+    simp only [mapOpt] at h
+    cases hx : f x with
+    | none => simp [hx] at h
+    | some y =>
+      cases hxs : mapOpt f xs with
+      | none => simp [hx, hxs] at h
+      | some ys' =>
+        simp [hx, hxs] at h; subst h
+        simp only [anyUntil, Bool.or_eq_false_iff] at ht
+        have hne : ends x = false := by
+          cases hh : ends x with
+          | false => rfl
+          | true => rw [he x hh] at hx; cases hx
+        simp only [hne, Bool.false_eq_true, ↓reduceIte] at ht
+        rw [hf x y hx ht.1, mapOpt_untouched f t ends hf he xs ys' hxs ht.2]
+
+theorem visitAll_untouched (c : Ctx) : ∀ (bs : List S),
+    (∀ b ∈ bs, ∀ x x', visit c b x = some x' → touched c b x = false → x' = x) →
+    ∀ v v', visitAll c bs v = some v' → touchedChain c bs v = false → v' = v
+  | [], _, v, v', h, _ => by simp [visitAll] at h; exact h.symm
+  | b :: bs, hb, v, v', h, ht => by
+    simp only [visitAll] at h
+    simp only [touchedChain, Bool.or_eq_false_iff] at ht
+    cases hv : visit c b v with
+    | none => simp [hv] at h
+    | some v1 =>
+      simp only [hv, Option.bind_some] at h
+      simp only [hv] at ht
+      have e : v1 = v := hb b (by simp) v v1 hv ht.1
+      subst e
+      exact visitAll_untouched c bs (fun b' hm => hb b' (by simp [hm])) v1 v' h ht.2
+
+theorem touchedEach_false (c : Ctx) (v : J) : ∀ (bs : List S), touchedEach c bs v = false → ∀ b ∈ bs, touched c b v = false
+  | [], _, b, hb => by cases hb
+  | b0 :: bs, h, b, hb => by
+    simp only [touchedEach, Bool.or_eq_false_iff] at h
+    cases hb with
+    | head => exact h.1
+    | tail _ hm => exact touchedEach_false c v bs h.2 b hm
+
+/-- up to and including the first accepting branch -/
+theorem touchedUntilMatch_false (c : Ctx) (v : J) : ∀ (pre : List S) (b : S) (post : List S),
+    (∀ p ∈ pre, visit c p v = none) → touchedUntilMatch c (pre ++ b :: post) v = false → touched c b v = false
+  | [], b, post, _, h => by
+    simp only [List.nil_append, touchedUntilMatch, Bool.or_eq_false_iff] at h; exact h.1
+  | p :: pre, b, post, hp, h => by
+    simp only [List.cons_append, touchedUntilMatch, Bool.or_eq_false_iff, hp p (by simp), Option.isSome_none,
+      Bool.false_eq_true, ↓reduceIte] at h
+    exact touchedUntilMatch_false c v pre b post (fun q hq => hp q (by simp [hq])) h.2
+
+/-- **A visit that ran the `DefaultsSet` callback nowhere forwards the value as it is.** -/
+theorem untouched_unchanged (c : Ctx) : ∀ s, wf s = true → ∀ v v', visit c s v = some v' → touched c s v = false → v' = v := by
+  intro s
+  induction s using S.induct with
+  | leaf a ty => intro _ v v' h _; exact visit_leaf_id c a ty v v' h
+  | obj a req props addl ih =>
+    intro hw v v' h ht
+    simp only [wf, Bool.and_eq_true] at hw
+    cases v with
+    | obj kvs =>
+      rw [visit_obj_obj] at h
+      rw [touched_obj_obj, Bool.or_eq_false_iff] at ht
+      cases hpre : objPre c req props addl kvs with
+      | none => simp [hpre] at h
+      | some kvs1 =>
+        simp only [hpre, Option.bind_some] at h
+        cases hv : visitProps c props kvs1 with
+        | none => simp [hv] at h
+        | some kvs' =>
+          simp [hv] at h; subst h
+          obtain ⟨e1, e2⟩ := objPre_some c req props addl kvs kvs1 hpre
+          have hd : defaulted c props kvs = kvs := by
+            cases hc : c.setDefaults with
+            | false => simp [defaulted, hc]
+            | true =>
+              apply defaulted_length c props kvs hw.1
+              have := ht.1
+              simp only [hc, Bool.true_and, bne_eq_false_iff_eq] at this
+              exact this
+          rw [hd] at e1; subst e1
+          rw [hd, stopKey_none_of_checks c req props addl kvs1 e2] at ht
+          rw [visitProps_untouched c props (fun p hp => ih p hp (wfProps_true props hw.2 p hp)) kvs1 kvs' hv ht.2]
+    | null => rw [visit_obj_null] at h; split at h <;> cases h; rfl
+    | bool b => rw [visit_obj_other _ _ _ _ _ _ rfl (by simp)] at h; cases h
+    | num n => rw [visit_obj_other _ _ _ _ _ _ rfl (by simp)] at h; cases h
+    | str t => rw [visit_obj_other _ _ _ _ _ _ rfl (by simp)] at h; cases h
+    | arr xs => rw [visit_obj_other _ _ _ _ _ _ rfl (by simp)] at h; cases h
+  | arr a items ih =>
+    intro hw v v' h ht
+    simp only [wf] at hw
+    cases v with
+    | arr xs =>
+      rw [visit_arr_arr] at h
+      rw [touched_arr_arr] at ht
+      cases hm : mapOpt (fun x => visit c items x) xs with
+      | none => simp [hm] at h
+      | some ys =>
+        simp [hm] at h; subst h
+        rw [mapOpt_untouched _ _ _ (fun x y hxy => ih hw x y hxy) (fun x hx => by
+          simp only [Bool.and_eq_true, Option.isNone_iff_eq_none] at hx; exact hx.1) xs ys hm ht]
+    | null => rw [visit_arr_null] at h; split at h <;> cases h; rfl
+    | bool b => rw [visit_arr_other _ _ _ _ rfl (by simp)] at h; cases h
+    | num n => rw [visit_arr_other _ _ _ _ rfl (by simp)] at h; cases h
+    | str t => rw [visit_arr_other _ _ _ _ rfl (by simp)] at h; cases h
+    | obj kvs => rw [visit_arr_other _ _ _ _ rfl (by simp)] at h; cases h
+  | comb a k bs ih =>
+    intro hw v v' h ht
+    simp only [wf] at hw
+    have hb : ∀ b ∈ bs, ∀ x x', visit c b x = some x' → touched c b x = false → x' = x :=
+      fun b hm => ih b hm (wfList_true bs hw b hm)
+    rw [touched_comb] at ht
+    rw [visit_comb] at h
+    rcases combRes_some h with e | ⟨_, hk, hall⟩ | ⟨_, hk, hp⟩
+    · exact e
+    · subst hk
+      cases hn : v.isNull with
+      | true =>
+        have := visit_isNull c (.comb a .allOf bs) v v' (by rw [visit_comb]; exact h)
+        cases v <;> simp [J.isNull] at hn
+        cases v' <;> simp [J.isNull] at this; rfl
+      | false =>
+        simp only [hn, Bool.false_eq_true, ↓reduceIte] at ht
+        exact visitAll_untouched c bs hb v v' hall ht
+    · cases hn : v.isNull with
+      | true =>
+        have := visit_isNull c (.comb a k bs) v v' (by rw [visit_comb]; exact h)
+        cases v <;> simp [J.isNull] at hn
+        cases v' <;> simp [J.isNull] at this; rfl
+      | false =>
+        simp only [hn, Bool.false_eq_true, ↓reduceIte] at ht
+        cases k with
+        | allOf => exact absurd rfl hk
+        | anyOf =>
+          simp only at ht
+          obtain ⟨tl, htl⟩ := (pick_anyOf _ _).mp hp
+          obtain ⟨pre, b, post, e, hpre, hv⟩ := visitMatches_head c v v' bs tl htl
+          subst e
+          exact hb b (by simp) v v' hv (touchedUntilMatch_false c v pre b post hpre ht)
+        | oneOf =>
+          simp only at ht
+          obtain ⟨b', hb', hv⟩ := (mem_visitMatches c v v' bs).mp (pick_mem _ _ _ hp)
+          exact hb b' hb' v v' hv (touchedEach_false c v bs ht b' hb')
+
+end KinModel.C13.Body
